@@ -154,8 +154,39 @@ theorem f2h_canon_is_ieee : ∀ v, v < 4294967296 →
     have hr1 := hr.1
     rw [if_neg (by omega)]; omega
 
+
 -- non-vacuity: one input of each class (signalling NaN, -inf, a tie)
 example : canon16 (f2h 0xff800001) = 0xfe00 ∧ canon16 (f2h 0xff800000) = 0xfc00 ∧
     canon16 (f2h 0x38803000) = 0x0402 := by decide
+
+/-! ### the half->float side of the F16C comparison -/
+
+/-- NaN float patterns -> sign|0x7fc00000 (what tools/halfspec.py `canon32` and the harness apply to half->float
+results before the F16C comparison) -/
+def canon32 (f : Nat) : Nat :=
+  if (f / 8388608) % 256 = 255 ∧ f % 8388608 ≠ 0 then (f / 2147483648) * 2147483648 + 0x7fc00000 else f
+
+def p_canon32 (h : Nat) : Bool :=
+  if isNan h then canon32 (h2f h) == (h / 32768) * 2147483648 + 0x7fc00000 else canon32 (h2f h) == h2f h
+
+/-- The software half->float with NaN results canonicalised — the left-hand side of the exhaustive F16C half->float
+comparison — is what IEEE-754 prescribes for a binary16->binary32 conversion: sign|quiet-NaN for NaNs, and for every
+other pattern the float itself, which by `C01.h2f_exact` has the same sign and denotes exactly the same number (infinity
+for infinity).  Twin of `f2h_canon_is_ieee`. -/
+theorem h2f_canon_is_ieee : ∀ h, h < 65536 →
+    (isNan h = true → canon32 (h2f h) = (h / 32768) * 2147483648 + 0x7fc00000) ∧
+    (isNan h = false → canon32 (h2f h) = h2f h ∧ h2f h / 2147483648 = h / 32768 ∧
+        (isInfinity h = true → h2f h % 2147483648 = 0x7f800000) ∧
+        (isInfinity h = false → h2f h % 2147483648 < 0x7f800000 ∧ fval (h2f h % 2147483648) = hval149 (h % 32768))) := by
+  intro h hh
+  have hall : allBits 16 0 p_canon32 = true := by decide +kernel
+  have hp := forall_lt_of_allBits 16 p_canon32 hall h (by simpa using hh)
+  unfold p_canon32 at hp
+  refine ⟨fun hn => ?_, fun hn => ?_⟩
+  · simpa [hn] using hp
+  · obtain ⟨_, b, c, d⟩ := C01.h2f_exact h hh hn
+    exact ⟨by simpa [hn] using hp, b, c, d⟩
+
+example : canon32 (h2f 0xfc01) = 0xffc00000 ∧ canon32 (h2f 0xfc00) = 0xff800000 ∧ canon32 (h2f 0x8001) = 0xb3800000 := by decide
 
 end ImathVerif.Half.C02
